@@ -21,6 +21,12 @@
  *   (bp=2: light request for position sweeps: lattice + FSG only, no history dump, no search passes)
  *   lat <tag> <k> <bp> [ops]  request + dump the lattice; k N-best entries; bp=1: bestpath + posterior too;
  *                      ops: a history of further calls on the same lattice (see run_history)
+ *   addword <hexword> <hexphones> <update>   decoder_add_word
+ *   calls <ops>        public calls that feed no audio and do not replace the search (see cmd_calls), to be placed
+ *                      between two lattice requests
+ * Cache trace: every public decoder call made by this harness prints a line `Z <api name> <arg> <object>`
+ * (decoder_lattice: arg = search frame count, object = index of the returned lattice in the table of all
+ * distinct lattices handed out so far, -1 = NULL; audio calls: arg = number of frames the search advanced).
  */
 #include "common.h"
 #include <soundswallower/decoder.h>
@@ -49,6 +55,7 @@ static void hexs(const char *s)
 
 static void drop_held(void);
 static void drop_prev_utt(void);
+static void drop_seen(void);
 
 static void cmd_newdec(char **w, int n)
 {
@@ -56,6 +63,7 @@ static void cmd_newdec(char **w, int n)
     int i, have_hmm = 0;
     drop_held();
     drop_prev_utt();
+    drop_seen();
     if (dec) { decoder_free(dec); dec = NULL; }
     cfg = config_init(NULL);
     for (i = 1; i < n; i++) {
@@ -94,6 +102,36 @@ static int held_frames;
 static void drop_prev_utt(void) { if (prev_utt_dag) { lattice_free(prev_utt_dag); prev_utt_dag = NULL; } }
 static void drop_held(void) { if (held_dag) { lattice_free(held_dag); held_dag = NULL; } }
 
+/* every distinct lattice handed out since newdec, retained once: an address cannot be recycled, so the index in
+ * this table is the identity of the object in the cache trace */
+static lattice_t **seen_dag;
+static int n_seen, cap_seen;
+static int obj_ix(lattice_t *dag)
+{
+    int i;
+    if (dag == NULL) return -1;
+    for (i = 0; i < n_seen; i++) if (seen_dag[i] == dag) return i;
+    if (n_seen == cap_seen) { cap_seen = cap_seen ? 2 * cap_seen : 64; seen_dag = (lattice_t **)realloc(seen_dag, sizeof(*seen_dag) * cap_seen); }
+    seen_dag[n_seen++] = lattice_retain(dag);
+    return n_seen - 1;
+}
+static void drop_seen(void)
+{
+    int i;
+    for (i = 0; i < n_seen; i++) lattice_free(seen_dag[i]);
+    free(seen_dag); seen_dag = NULL; n_seen = cap_seen = 0;
+}
+static int search_frame(void) { fsg_search_t *fs = dec ? (fsg_search_t *)dec->search : NULL; return fs ? fs->frame : -99; }
+/* trace line of a call that is neither a lattice request nor audio */
+static void zo(const char *api) { printf("Z %s 0 -1\n", api); }
+/* decoder_lattice with its trace line */
+static lattice_t *req_lattice(void)
+{
+    lattice_t *dag = decoder_lattice(dec);
+    printf("Z decoder_lattice %d %d\n", search_frame(), obj_ix(dag));
+    return dag;
+}
+
 /* the whole remaining audio (up to n samples) in ONE call with full_utt = TRUE: everything is searched inside
  * the call, decoder_end_utt has nothing left to flush */
 static void cmd_procfull(int n)
@@ -102,12 +140,14 @@ static void cmd_procfull(int n)
     size_t k = (size_t)n;
     fsg_search_t *fs = (fsg_search_t *)dec->search;
     int16 *ib;
+    int f0 = search_frame();
     if (audio_pos + k > n_audio) k = n_audio - audio_pos;
     ib = (int16 *)malloc(sizeof(int16) * (k + 1));
     memcpy(ib, audio + audio_pos, sizeof(int16) * k);
     rv = decoder_process_int16(dec, ib, k, 0, 1);
     free(ib);
     audio_pos += k;
+    printf("Z decoder_process_int16 %d -1\n", search_frame() - f0);
     printf("procfull %d %zu %d\n", rv, k, fs ? fs->frame : -99);
 }
 
@@ -116,6 +156,7 @@ static void cmd_proc(int n)
     int rv = 0;
     size_t k = (size_t)n, done = 0;
     fsg_search_t *fs = (fsg_search_t *)dec->search;
+    int f0 = search_frame();
     if (audio_pos + k > n_audio) k = n_audio - audio_pos;
     /* fed in pieces of at most 8000 samples (private copies so that an overrun is seen by ASan) */
     while (done < k || (k == 0 && done == 0)) {
@@ -128,6 +169,7 @@ static void cmd_proc(int n)
         if (rv < 0 || k == 0) break;
     }
     audio_pos += k;
+    printf("Z decoder_process_int16 %d -1\n", search_frame() - f0);
     printf("proc %d %zu %d\n", rv, k, fs ? fs->frame : -99);
 }
 
@@ -261,13 +303,15 @@ static void cmd_lat(const char *tag, int k, int bp, char *ops)
     /* first-best from the history table, before the lattice exists */
     hyp = decoder_hyp(dec, &score);
     printf("LAT begin %s final=%d frame=%d nhist=%d\n", tag, fs->final ? 1 : 0, fs->frame, nhist0);
+    zo("decoder_hyp");
     printf("H "); hexs(hyp); printf(" %d\n", hyp ? score : 0);
     dump_seg(decoder_seg_iter(dec), "X");
+    zo("decoder_seg_iter");
     fflush(stdout);
 
-    dag = decoder_lattice(dec);
+    dag = req_lattice();
     if (dag == NULL) {
-        dag2 = decoder_lattice(dec);
+        dag2 = req_lattice();
         printf("LAT null again=%s\n", dag2 ? "nonnull" : "null");
         dump_fsg_hist(fs);
         printf("LAT end %s\n", tag);
@@ -283,7 +327,7 @@ static void cmd_lat(const char *tag, int k, int bp, char *ops)
     drop_held();
     held_dag = lattice_retain(dag);
     held_frames = dag->n_frames;
-    dag2 = decoder_lattice(dec);
+    dag2 = req_lattice();
     index_lattice(dag, &x);
     printf("G nframes=%d api_nframes=%d nnodes=%d nlinks=%d start=%d end=%d same=%d n_nodes_field=%d final_ascr=%d silwid=%d\n",
            (int)dag->n_frames, lattice_n_frames(dag), x.n_nodes, x.n_links,
@@ -340,6 +384,7 @@ static void cmd_lat(const char *tag, int k, int bp, char *ops)
     if (k > 0) {
         hyp_iter_t *nb = decoder_nbest(dec);
         int j = 0, tried = 0, ins = 0, rej = 0, npath = 0, maxnp = 0;
+        zo("decoder_nbest");
         while (nb && j < k) {
             int32 sc = 0;
             const char *h = hyp_iter_hyp(nb, &sc);
@@ -382,12 +427,14 @@ static void cmd_lat(const char *tag, int k, int bp, char *ops)
         int32 post;
         logmath_t *lm = lattice_get_logmath(dag);
         best = lattice_bestpath(dag, ascale);
+        zo("lattice_bestpath");
         printf("P best=%d score=%d norm=%d ascale=%.9g logzero=%d base=%.17g shift=%d\n", link_ix(&x, best),
                best ? best->path_scr : 0, dag->norm, (double)ascale, logmath_get_zero(lm),
                logmath_get_base(lm), logmath_get_shift(lm));
         fflush(stdout);
         if (best) {
             post = lattice_posterior(dag, ascale);
+            zo("lattice_posterior");
             printf("Q post=%d norm=%d\n", post, dag->norm);
             for (i = 0; i < x.n_links; i++) {
                 latlink_t *l = x.links[i];
@@ -407,7 +454,7 @@ static void cmd_lat(const char *tag, int k, int bp, char *ops)
         /* a history of further API calls on the same lattice (repeated / abandoned passes) */
         if (best && ops && strcmp(ops, "-")) run_history(dag, &x, ascale, ops);
         /* the object must still be the cached one */
-        dag2 = decoder_lattice(dec);
+        dag2 = req_lattice();
         printf("S same_after=%d\n", dag == dag2 ? 1 : 0);
     }
     free(x.nodes); free(x.links);
@@ -446,6 +493,7 @@ static void run_history(lattice_t *dag, latidx_t *x, float32 ascale, char *ops)
         } else if (op[0] == 'n') {
             int k = atoi(op + 1), j = 0;
             hyp_iter_t *nb = decoder_nbest(dec);
+            zo("decoder_nbest");
             printf("HN %d", step);
             while (nb && j < k) {
                 int32 sc = 0;
@@ -457,6 +505,109 @@ static void run_history(lattice_t *dag, latidx_t *x, float32 ascale, char *ops)
             printf("\n");
             if (nb) hyp_iter_free(nb);
         }
+        fflush(stdout);
+    }
+}
+
+/* ---- public calls that feed no audio and do not replace the search --------------------------------
+ * ops, comma separated (arguments in hex after ':'); one `C <step> <op> <summary>` line and one trace line each:
+ *   aw0:<word>:<phones> / aw1:<word>:<phones>   decoder_add_word with update = FALSE / TRUE
+ *   lw:<word>    decoder_lookup_word            hyp    decoder_hyp            prob   decoder_prob
+ *   seg<n>       decoder_seg_iter + n x seg_iter_next, freed when abandoned
+ *   nb<n>        decoder_nbest + n x hyp_iter_next, then hyp_iter_free
+ *   al           decoder_alignment              json<l> decoder_result_json(start 0, align_level l)
+ *   nf           decoder_n_frames               cmn0/cmn1 decoder_get_cmn(update)     setcmn  decoder_set_cmn(current)
+ *   cfg          decoder_config + typed reads   get    decoder_logmath/_fe/_feat     time   decoder_utt_time/_all_time
+ *   ref          decoder_retain + decoder_free  lat    decoder_lattice
+ * Not offered (they legitimately drop the lattice or feed audio): decoder_set_fsg, decoder_set_jsgf_file/_string, decoder_set_align_text, decoder_reinit(_feat),
+ * decoder_apply_mllr, decoder_start_utt, decoder_process_*, decoder_end_utt, decoder_free of the last reference. */
+static void cmd_calls(char *ops)
+{
+    char *save = NULL, *op;
+    int step = 0;
+    for (op = strtok_r(ops, ",", &save); op; op = strtok_r(NULL, ",", &save), step++) {
+        char *a1 = strchr(op, ':'), *a2 = NULL;
+        size_t l1 = 0, l2 = 0;
+        char *s1 = NULL, *s2 = NULL;
+        if (a1) { *a1++ = 0; a2 = strchr(a1, ':'); if (a2) *a2++ = 0; }
+        if (a1) s1 = (char *)vf_parse_hex(a1, &l1);
+        if (a2) s2 = (char *)vf_parse_hex(a2, &l2);
+        printf("C %d %s ", step, op);
+        if ((!strcmp(op, "aw0") || !strcmp(op, "aw1")) && s1 && s2) {
+            int upd = op[2] == '1';
+            printf("%d\n", decoder_add_word(dec, s1, s2, upd) >= 0 ? 0 : -1);
+            zo(upd ? "decoder_add_word_update" : "decoder_add_word_noupdate");
+        } else if (!strcmp(op, "lw") && s1) {
+            char *ph = decoder_lookup_word(dec, s1);
+            hexs(ph); printf("\n");
+            ckd_free(ph);
+            zo("decoder_lookup_word");
+        } else if (!strcmp(op, "hyp")) {
+            int32 sc = 0;
+            const char *h = decoder_hyp(dec, &sc);
+            hexs(h); printf(" %d\n", h ? sc : 0);
+            zo("decoder_hyp");
+        } else if (!strcmp(op, "prob")) {
+            printf("%d\n", decoder_prob(dec));
+            zo("decoder_prob");
+        } else if (!strncmp(op, "seg", 3)) {
+            int k = atoi(op + 3), j = 0;
+            seg_iter_t *seg = decoder_seg_iter(dec);
+            while (seg && j < k) { seg = seg_iter_next(seg); j++; }
+            printf("%d %d\n", j, seg ? 1 : 0);
+            if (seg) seg_iter_free(seg);
+            zo("decoder_seg_iter");
+        } else if (!strncmp(op, "nb", 2)) {
+            int k = atoi(op + 2), j = 0;
+            hyp_iter_t *nb = decoder_nbest(dec);
+            while (nb && j < k) { int32 sc = 0; hyp_iter_hyp(nb, &sc); nb = hyp_iter_next(nb); j++; }
+            printf("%d %d\n", j, nb ? 1 : 0);
+            if (nb) hyp_iter_free(nb);
+            zo("decoder_nbest");
+        } else if (!strcmp(op, "al")) {
+            alignment_t *al = decoder_alignment(dec);
+            printf("%s\n", al ? "nonnull" : "null");
+            zo("decoder_alignment");
+        } else if (!strncmp(op, "json", 4)) {
+            const char *js = decoder_result_json(dec, 0.0, atoi(op + 4));
+            printf("%d\n", js ? (int)strlen(js) : -1);
+            zo("decoder_result_json");
+        } else if (!strcmp(op, "nf")) {
+            printf("%d\n", decoder_n_frames(dec));
+            zo("decoder_n_frames");
+        } else if (!strcmp(op, "cmn0") || !strcmp(op, "cmn1")) {
+            const char *r = decoder_get_cmn(dec, op[3] == '1');
+            printf("%s\n", r ? "nonnull" : "null");
+            zo(op[3] == '1' ? "decoder_get_cmn_update" : "decoder_get_cmn");
+        } else if (!strcmp(op, "setcmn")) {
+            const char *r = decoder_get_cmn(dec, 0);
+            char *copy = r ? strdup(r) : NULL;
+            printf("%d\n", copy ? decoder_set_cmn(dec, copy) : -2);
+            free(copy);
+            zo("decoder_get_cmn"); zo("decoder_set_cmn");
+        } else if (!strcmp(op, "cfg")) {
+            config_t *cfg = decoder_config(dec);
+            const char *hm = config_str(cfg, "hmm");
+            printf("%d %d %d\n", hm ? 1 : 0, config_float(cfg, "beam") > 0 ? 1 : 0, config_bool(cfg, "bestpath") ? 1 : 0);
+            zo("decoder_config");
+        } else if (!strcmp(op, "get")) {
+            printf("%d %d %d\n", decoder_logmath(dec) ? 1 : 0, decoder_fe(dec) ? 1 : 0, decoder_feat(dec) ? 1 : 0);
+            zo("decoder_logmath"); zo("decoder_fe"); zo("decoder_feat");
+        } else if (!strcmp(op, "time")) {
+            double a = 0, b = 0, c = 0;
+            decoder_utt_time(dec, &a, &b, &c);
+            decoder_all_time(dec, &a, &b, &c);
+            printf("ok\n");
+            zo("decoder_utt_time"); zo("decoder_all_time");
+        } else if (!strcmp(op, "ref")) {
+            decoder_t *d2 = decoder_retain(dec);
+            printf("%d\n", decoder_free(d2));
+            zo("decoder_retain"); zo("decoder_free_not_last");
+        } else if (!strcmp(op, "lat")) {
+            printf("request\n");
+            req_lattice();
+        } else printf("bad-op\n");
+        free(s1); free(s2);
         fflush(stdout);
     }
 }
@@ -479,24 +630,37 @@ int main(int argc, char **argv)
             size_t len;
             char *s = (char *)vf_parse_hex(w[1], &len);
             printf("jsgf %d\n", decoder_set_jsgf_string(dec, s));
+            zo("decoder_set_jsgf_string");
             free(s);
         }
         else if (!strcmp(w[0], "fsgfile") && n == 2) {
             fsg_model_t *fsg = fsg_model_readfile(w[1], dec->lmath, (float32)config_float(dec->config, "lw"));
             if (fsg == NULL) printf("fsgfile -2\n");
-            else printf("fsgfile %d\n", decoder_set_fsg(dec, fsg));
+            else { printf("fsgfile %d\n", decoder_set_fsg(dec, fsg)); zo("decoder_set_fsg"); }
         }
+        else if (!strcmp(w[0], "addword") && n == 4) {
+            size_t l1, l2;
+            char *wd = (char *)vf_parse_hex(w[1], &l1), *ph = (char *)vf_parse_hex(w[2], &l2);
+            int upd = atoi(w[3]);
+            printf("addword %d\n", decoder_add_word(dec, wd, ph, upd) >= 0 ? 0 : -1);
+            zo(upd ? "decoder_add_word_update" : "decoder_add_word_noupdate");
+            free(wd); free(ph);
+        }
+        else if (!strcmp(w[0], "calls") && n == 2) cmd_calls(w[1]);
         else if (!strcmp(w[0], "audio") && n == 2) cmd_audio(w[1]);
         else if (!strcmp(w[0], "start")) {
             /* keep the last lattice of the utterance that ends here (retained, so its address stays taken) */
             if (held_dag) { if (prev_utt_dag) lattice_free(prev_utt_dag); prev_utt_dag = held_dag; held_dag = NULL; }
             audio_pos = 0; printf("start %d\n", decoder_start_utt(dec));
+            zo("decoder_start_utt");
         }
         else if (!strcmp(w[0], "procfull") && n == 2) cmd_procfull(atoi(w[1]));
         else if (!strcmp(w[0], "proc") && n == 2) cmd_proc(atoi(w[1]));
         else if (!strcmp(w[0], "end")) {
             fsg_search_t *fs = (fsg_search_t *)dec->search;
+            int f0 = search_frame();
             int rv = decoder_end_utt(dec);
+            printf("Z decoder_end_utt %d -1\n", search_frame() - f0);
             printf("end %d %d\n", rv, fs ? fs->frame : -99);
         }
         else if (!strcmp(w[0], "lat") && n == 4) cmd_lat(w[1], atoi(w[2]), atoi(w[3]), NULL);
@@ -506,6 +670,7 @@ int main(int argc, char **argv)
     }
     drop_held();
     if (prev_utt_dag) { lattice_free(prev_utt_dag); prev_utt_dag = NULL; }
+    drop_seen();
     if (dec) decoder_free(dec);
     free(audio);
     return 0;
